@@ -146,6 +146,7 @@ class Utilization(IndBase):
 
 @register
 class NumberTasksAssigned(IndBase):
+    lifts = True  # element-wise meaning: holds for every list length once the loops are independent (contracts/loops.py)
     target = "indicator.IndicatorNumberTasksAssigned.__init__"
     bounded = "1..3 tasks on the resource; all integers symbolic"
 
@@ -183,6 +184,7 @@ class NumberTasksAssigned(IndBase):
 
 @register
 class ResourceCost(IndBase):
+    lifts = True  # element-wise meaning: holds for every list length once the loops are independent (contracts/loops.py)
     target = "indicator.IndicatorResourceCost.__init__"
     inlines = IndBase.inlines + ("function.Function.__call__", "function.ConstantFunction.__init__", "function.LinearFunction.__init__", "function.PolynomialFunction.__init__")
     bounded = "1..3 tasks on the resource; cost coefficients and all integers symbolic"
@@ -287,6 +289,7 @@ class DueBase(IndBase):
 
 @register
 class Tardiness(DueBase):
+    lifts = True  # element-wise meaning: holds for every list length once the loops are independent (contracts/loops.py)
     target = "indicator.IndicatorTardiness.__init__"
 
     def build(self, ps, P, case, pb, w, tasks):
@@ -298,6 +301,7 @@ class Tardiness(DueBase):
 
 @register
 class Earliness(DueBase):
+    lifts = True  # element-wise meaning: holds for every list length once the loops are independent (contracts/loops.py)
     target = "indicator.IndicatorEarliness.__init__"
 
     def build(self, ps, P, case, pb, w, tasks):
@@ -309,6 +313,7 @@ class Earliness(DueBase):
 
 @register
 class NumberOfTardyTasks(DueBase):
+    lifts = True  # element-wise meaning: holds for every list length once the loops are independent (contracts/loops.py)
     target = "indicator.IndicatorNumberOfTardyTasks.__init__"
 
     def build(self, ps, P, case, pb, w, tasks):
@@ -320,6 +325,7 @@ class NumberOfTardyTasks(DueBase):
 
 @register
 class MaximumLateness(DueBase):
+    lifts = True  # element-wise meaning: holds for every list length once the loops are independent (contracts/loops.py)
     target = "indicator.IndicatorMaximumLateness.__init__"
     inlines = IndBase.inlines + ("util.get_maximum",)
     task_sets = (("Fm",), ("Fm", "Vm"), ("Vm", "Fm", "Zm"))
@@ -386,6 +392,7 @@ class SumObjBase(IndBase):
 
 @register
 class Flowtime(SumObjBase):
+    lifts = True  # element-wise meaning: holds for every list length once the loops are independent (contracts/loops.py)
     target = "objective.ObjectiveMinimizeFlowtime.__init__"
 
     def build_objective(self, ps, P, case, tasks):
@@ -397,6 +404,7 @@ class Flowtime(SumObjBase):
 
 @register
 class Priorities(SumObjBase):
+    lifts = True  # element-wise meaning: holds for every list length once the loops are independent (contracts/loops.py)
     target = "objective.ObjectivePriorities.__init__"
 
     def build_objective(self, ps, P, case, tasks):
@@ -408,6 +416,7 @@ class Priorities(SumObjBase):
 
 @register
 class StartEarliest(SumObjBase):
+    lifts = True  # element-wise meaning: holds for every list length once the loops are independent (contracts/loops.py)
     target = "objective.ObjectiveTasksStartEarliest.__init__"
 
     def build_objective(self, ps, P, case, tasks):
@@ -419,6 +428,7 @@ class StartEarliest(SumObjBase):
 
 @register
 class GreatestStart(SumObjBase):
+    lifts = True  # element-wise meaning: holds for every list length once the loops are independent (contracts/loops.py)
     target = "objective.ObjectiveMinimizeGreatestStartTime.__init__"
     inlines = SumObjBase.inlines + ("util.get_maximum",)
     task_sets = (("Fm",), ("Fm", "Vm"), ("Vm", "Fm", "Zm"))
@@ -433,6 +443,7 @@ class GreatestStart(SumObjBase):
 
 @register
 class StartLatest(SumObjBase):
+    lifts = True  # element-wise meaning: holds for every list length once the loops are independent (contracts/loops.py)
     target = "objective.ObjectiveTasksStartLatest.__init__"
     inlines = SumObjBase.inlines + ("util.get_minimum",)
     task_sets = (("Fm",), ("Fm", "Vm"), ("Vm", "Fm", "Zm"))
